@@ -294,6 +294,99 @@ theorem tabFresh_run (ops : List TAOp) (t : TA) (ks : Nat) (hf : TabFresh t ks)
     · intro o' ho'
       exact hn o' (List.mem_cons_of_mem _ ho')
 
+/-! ### tables installed from outside (hook) and when the policy replaces them -/
+
+/-- the keyspaces whose CURRENT table was installed from outside and has not been recomputed by the policy since:
+`setReplicas ks` marks `ks`, `KeyspaceChanged ks` clears `ks`, an `AddHost` / `RemoveHost` that changes the policy's
+host list (ring change: `updateAllReplicas`) clears all -/
+def dirtyStep (t : TA) (d : List Nat) : TAOp → List Nat
+  | .setReplicas ks _ => ks :: d
+  | .keyspaceChanged ks => d.filter (fun k => k != ks)
+  | .add h => if (cowAdd t.hosts h).2 then [] else d
+  | .remove h => if (cowRemove t.hosts h.addr).2 then [] else d
+  | _ => d
+
+/-- run a history keeping the set of `dirtyStep` next to the policy state -/
+def runDirty : TA × List Nat → List TAOp → TA × List Nat
+  | s, [] => s
+  | s, o :: r => runDirty (s.1.apply o, dirtyStep s.1 s.2 o) r
+
+theorem runDirty_fst (s : TA × List Nat) (ops : List TAOp) : (runDirty s ops).1 = ops.foldl TA.apply s.1 := by
+  induction ops generalizing s with
+  | nil => rfl
+  | cons o r ih => rw [runDirty, ih, List.foldl_cons]
+
+/-- the keyspaces with an installed, not yet recomputed table after the history `ops` from a new policy -/
+def dirtyOf (t0 : TA) (ops : List TAOp) : List Nat := (runDirty (t0, []) ops).2
+
+theorem tabFresh_add_changed (t : TA) (h : Host) (ks : Nat) (hc : (cowAdd t.hosts h).2 = true) : TabFresh (t.add h) ks := by
+  unfold TA.add
+  simp only [hc, if_true]
+  intro e he hes f hfe x hx
+  exact tabFresh_refresh { t with hosts := (cowAdd t.hosts h).1 } ks e he hes f hfe x hx
+
+theorem tabFresh_remove_changed (t : TA) (h : Host) (ks : Nat) (hc : (cowRemove t.hosts h.addr).2 = true) : TabFresh (t.remove h) ks := by
+  unfold TA.remove
+  simp only [hc, if_true]
+  intro e he hes f hfe x hx
+  exact tabFresh_refresh { t with hosts := (cowRemove t.hosts h.addr).1 } ks e he hes f hfe x hx
+
+theorem dirty_apply (t : TA) (d : List Nat) (o : TAOp) (hf : ∀ ks, ks ∉ d → TabFresh t ks) :
+    ∀ ks, ks ∉ dirtyStep t d o → TabFresh (t.apply o) ks := by
+  intro ks hks
+  cases o with
+  | add h =>
+    simp only [dirtyStep] at hks
+    by_cases hc : (cowAdd t.hosts h).2 = true
+    · exact tabFresh_add_changed t h ks hc
+    · rw [if_neg hc] at hks
+      exact tabFresh_add t h ks (hf ks hks)
+  | remove h =>
+    simp only [dirtyStep] at hks
+    by_cases hc : (cowRemove t.hosts h.addr).2 = true
+    · exact tabFresh_remove_changed t h ks hc
+    · rw [if_neg hc] at hks
+      exact tabFresh_remove t h ks (hf ks hks)
+  | keyspaceChanged k =>
+    simp only [dirtyStep, List.mem_filter, not_and, bne_iff_ne, ne_eq, Decidable.not_not] at hks
+    by_cases hk : ks = k
+    · subst hk; exact tabFresh_keyspaceChanged t ks
+    · exact tabFresh_updateReplicas t k ks (hf ks (fun hm => hk (hks hm)))
+  | setReplicas k tab =>
+    simp only [dirtyStep, List.mem_cons, not_or] at hks
+    exact tabFresh_apply t (.setReplicas k tab) ks (hf ks hks.2) (fun e => hks.1 e.symm)
+  | hostUp h => exact tabFresh_apply t _ ks (hf ks hks) trivial
+  | hostDown h => exact tabFresh_apply t _ ks (hf ks hks) trivial
+  | pick up σ rk limit => exact tabFresh_apply t _ ks (hf ks hks) trivial
+  | setCtr n => exact tabFresh_apply t _ ks (hf ks hks) trivial
+  | setMeta k v => exact tabFresh_apply t _ ks (hf ks hks) trivial
+
+theorem dirty_run (ops : List TAOp) (s : TA × List Nat) (hf : ∀ ks, ks ∉ s.2 → TabFresh s.1 ks) :
+    ∀ ks, ks ∉ (runDirty s ops).2 → TabFresh (runDirty s ops).1 ks := by
+  induction ops generalizing s with
+  | nil => exact hf
+  | cons o r ih => exact ih (s.1.apply o, dirtyStep s.1 s.2 o) (dirty_apply s.1 s.2 o hf)
+
+/-- a history that installs no table for `ks` from outside leaves `ks` clean -/
+theorem dirtyStep_noInject (t : TA) (d : List Nat) (o : TAOp) (ks : Nat) (hd : ks ∉ d) (hn : o.noInject ks) :
+    ks ∉ dirtyStep t d o := by
+  cases o with
+  | add h => simp only [dirtyStep]; split <;> simp [hd]
+  | remove h => simp only [dirtyStep]; split <;> simp [hd]
+  | keyspaceChanged k => simp only [dirtyStep, List.mem_filter]; exact fun h => hd h.1
+  | setReplicas k tab =>
+    simp only [dirtyStep, List.mem_cons, not_or]
+    exact ⟨fun e => hn e.symm, hd⟩
+  | _ => exact hd
+
+theorem runDirty_noInject (ops : List TAOp) (s : TA × List Nat) (ks : Nat) (hd : ks ∉ s.2)
+    (hn : ∀ o ∈ ops, o.noInject ks) : ks ∉ (runDirty s ops).2 := by
+  induction ops generalizing s with
+  | nil => exact hd
+  | cons o r ih =>
+    exact ih (s.1.apply o, dirtyStep s.1 s.2 o) (dirtyStep_noInject s.1 s.2 o ks hd (hn o List.mem_cons_self))
+      (fun o' ho' => hn o' (List.mem_cons_of_mem _ ho'))
+
 /-! ### the policy's own host list against the history -/
 
 def TAOp.ev : TAOp → Option (Ev × Host)
